@@ -74,6 +74,10 @@ int32_t pstm_init_size(psPool_t *pool, pstm_int *a, psSize_t size)
     a->sign  = PSTM_ZPOS;   /* Number is positive */
     /* zero the digits */
     for (x = 0; x < size; x++)
+    PS_VERIF_LOOP(__CPROVER_assigns(x, __CPROVER_object_whole(a->dp))
+        __CPROVER_loop_invariant(x <= size)
+        __CPROVER_loop_invariant(PS_VERIF_K < x ==> a->dp[PS_VERIF_K] == 0)
+        __CPROVER_decreases(size - x))
     {
         a->dp[x] = 0;
     }
@@ -127,6 +131,12 @@ int32_t pstm_grow(pstm_int *a, psSize_t size)
         a->alloc = size;
         /* zero excess digits */
         for (; i < a->alloc; i++)
+        PS_VERIF_LOOP(__CPROVER_assigns(i, __CPROVER_object_whole(a->dp))
+            __CPROVER_loop_invariant(__CPROVER_loop_entry(i) <= i && i <= a->alloc)
+            __CPROVER_loop_invariant((PS_VERIF_K < __CPROVER_loop_entry(i)) ==> a->dp[PS_VERIF_K] == __CPROVER_loop_entry(a->dp[PS_VERIF_K * (PS_VERIF_K < i)]))
+            __CPROVER_loop_invariant((a->used > 0 && a->used <= __CPROVER_loop_entry(i)) ==> a->dp[a->used - 1] == __CPROVER_loop_entry(a->dp[(a->used - 1) * (a->used > 0 && a->used <= i)]))
+            __CPROVER_loop_invariant((__CPROVER_loop_entry(i) <= PS_VERIF_K && PS_VERIF_K < i) ==> a->dp[PS_VERIF_K] == 0)
+            __CPROVER_decreases(a->alloc - i))
         {
             a->dp[i] = 0;
         }
@@ -167,12 +177,29 @@ int32_t pstm_copy(const pstm_int *a, pstm_int *b)
 
         /* copy all the digits */
         for (n = 0; n < a->used; n++)
+        PS_VERIF_LOOP(__CPROVER_assigns(n, tmpa, tmpb, __CPROVER_object_whole(b->dp))
+            __CPROVER_loop_invariant(0 <= n && n <= a->used)
+            __CPROVER_loop_invariant(tmpa == a->dp + n && tmpb == b->dp + n)
+            __CPROVER_loop_invariant((PS_VERIF_K < n) ==> b->dp[PS_VERIF_K] == a->dp[PS_VERIF_K])
+            __CPROVER_loop_invariant((n == a->used && a->used > 0) ==> b->dp[a->used - 1] == a->dp[a->used - 1])
+            __CPROVER_loop_invariant((PS_VERIF_K >= n && PS_VERIF_K >= b->used && PS_VERIF_K < b->alloc) ==> b->dp[PS_VERIF_K] == 0)
+            __CPROVER_decreases(a->used - n))
         {
+            PS_VERIF_PTR_HINT(tmpa, a->dp + n) PS_VERIF_PTR_HINT(tmpb, b->dp + n)
             *tmpb++ = *tmpa++;
         }
         /* clear high digits */
         for (; n < b->used; n++)
+        PS_VERIF_LOOP(__CPROVER_assigns(n, tmpb, __CPROVER_object_whole(b->dp))
+            __CPROVER_loop_invariant(a->used <= n && (n <= b->used || n == a->used))
+            __CPROVER_loop_invariant(tmpb == b->dp + n)
+            __CPROVER_loop_invariant((PS_VERIF_K < a->used) ==> b->dp[PS_VERIF_K] == a->dp[PS_VERIF_K])
+            __CPROVER_loop_invariant((a->used > 0) ==> b->dp[a->used - 1] == a->dp[a->used - 1])
+            __CPROVER_loop_invariant((a->used <= PS_VERIF_K && PS_VERIF_K < n) ==> b->dp[PS_VERIF_K] == 0)
+            __CPROVER_loop_invariant((PS_VERIF_K >= n && PS_VERIF_K >= b->used && PS_VERIF_K < b->alloc) ==> b->dp[PS_VERIF_K] == 0)
+            __CPROVER_decreases(b->used - n))
         {
+            PS_VERIF_PTR_HINT(tmpb, b->dp + n)
             *tmpb++ = 0;
         }
     }
@@ -209,6 +236,11 @@ void pstm_clamp(pstm_int *a)
 {
     /*  decrease used while the most significant digit is zero. */
     while (a->used > 0 && a->dp[a->used - 1] == 0)
+    PS_VERIF_LOOP(__CPROVER_assigns(a->used)
+        __CPROVER_loop_invariant(a->used <= __CPROVER_loop_entry(a->used))
+        __CPROVER_loop_invariant((a->used <= PS_VERIF_K && PS_VERIF_K < __CPROVER_loop_entry(a->used)) ==> a->dp[PS_VERIF_K] == 0)
+        __CPROVER_loop_invariant((__CPROVER_loop_entry(a->used) > 0 && a->dp[__CPROVER_loop_entry(a->used) - 1] != 0) ==> a->used == __CPROVER_loop_entry(a->used))
+        __CPROVER_decreases(a->used))
     {
         --(a->used);
     }
@@ -232,6 +264,9 @@ void pstm_clear(pstm_int *a)
     {
         /* first zero the digits */
         for (i = 0; i < a->used; i++)
+        PS_VERIF_LOOP(__CPROVER_assigns(i, __CPROVER_object_whole(a->dp))
+            __CPROVER_loop_invariant(0 <= i && i <= a->used)
+            __CPROVER_decreases(a->used - i))
         {
             a->dp[i] = 0;
         }
@@ -300,7 +335,12 @@ void pstm_zero(pstm_int *a)
 
     tmp = a->dp;
     for (n = 0; n < a->alloc; n++)
+    PS_VERIF_LOOP(__CPROVER_assigns(n, tmp, __CPROVER_object_whole(a->dp))
+        __CPROVER_loop_invariant(n <= a->alloc && tmp == a->dp + n)
+        __CPROVER_loop_invariant(PS_VERIF_K < n ==> a->dp[PS_VERIF_K] == 0)
+        __CPROVER_decreases(a->alloc - n))
     {
+        PS_VERIF_PTR_HINT(tmp, a->dp + n)
         *tmp++ = 0;
     }
 }
@@ -329,7 +369,13 @@ int32_t pstm_cmp_mag(const pstm_int *a, const pstm_int *b)
     tmpb = b->dp + (a->used - 1);
     /* compare based on digits */
     for (n = 0; n < a->used; ++n, --tmpa, --tmpb)
+    PS_VERIF_LOOP(__CPROVER_assigns(n, tmpa, tmpb)
+        __CPROVER_loop_invariant(n <= a->used)
+        __CPROVER_loop_invariant(tmpa == a->dp + (a->used - 1 - n) && tmpb == b->dp + (a->used - 1 - n))
+        __CPROVER_loop_invariant((a->used - n <= PS_VERIF_K && PS_VERIF_K < a->used) ==> a->dp[PS_VERIF_K] == b->dp[PS_VERIF_K])
+        __CPROVER_decreases(a->used - n))
     {
+        PS_VERIF_PTR_HINT(tmpa, a->dp + (a->used - 1 - n)) PS_VERIF_PTR_HINT(tmpb, b->dp + (a->used - 1 - n))
         if (*tmpa > *tmpb)
         {
             return PSTM_GT;
@@ -739,11 +785,23 @@ void pstm_rshd(pstm_int *a, uint16_t b)
     }
     /* shift */
     for (y = 0; y < a->used - b; y++)
+    PS_VERIF_LOOP(__CPROVER_assigns(y, __CPROVER_object_whole(a->dp))
+        __CPROVER_loop_invariant(y <= a->used - b)
+        __CPROVER_loop_invariant(a->dp[a->used - 1] == __CPROVER_loop_entry(a->dp[a->used - 1]))
+        __CPROVER_loop_invariant((y == a->used - b) ==> a->dp[a->used - b - 1] == __CPROVER_loop_entry(a->dp[a->used - 1]))
+        __CPROVER_loop_invariant((PS_VERIF_K >= a->used && PS_VERIF_K < a->alloc) ==> a->dp[PS_VERIF_K] == 0)
+        __CPROVER_decreases(a->used - b - y))
     {
         a->dp[y] = a->dp[y + b];
     }
     /* zero the rest */
     for (; y < a->used; y++)
+    PS_VERIF_LOOP(__CPROVER_assigns(y, __CPROVER_object_whole(a->dp))
+        __CPROVER_loop_invariant(a->used - b <= y && y <= a->used)
+        __CPROVER_loop_invariant(a->dp[a->used - b - 1] == __CPROVER_loop_entry(a->dp[a->used - b - 1]))
+        __CPROVER_loop_invariant((a->used - b <= PS_VERIF_K && PS_VERIF_K < y) ==> a->dp[PS_VERIF_K] == 0)
+        __CPROVER_loop_invariant((PS_VERIF_K >= a->used && PS_VERIF_K < a->alloc) ==> a->dp[PS_VERIF_K] == 0)
+        __CPROVER_decreases(a->used - y))
     {
         a->dp[y] = 0;
     }
@@ -790,13 +848,28 @@ int32_t pstm_lshd(pstm_int *a, uint16_t b)
         other way around.  Copying from the bottom to the top.
  */
         for (x = a->used - 1; x >= b; x--)
+        PS_VERIF_LOOP(__CPROVER_assigns(x, top, bottom, __CPROVER_object_whole(a->dp))
+            __CPROVER_loop_invariant(b - 1 <= x && x <= a->used - 1)
+            __CPROVER_loop_invariant(top == a->dp + x && bottom == a->dp + (x - b))
+            __CPROVER_loop_invariant((a->used > b && x == a->used - 1) ==> a->dp[a->used - 1 - b] == __CPROVER_loop_entry(a->dp[(a->used - 1 - b) * (a->used > b)]))
+            __CPROVER_loop_invariant((a->used > b && x < a->used - 1) ==> a->dp[a->used - 1] == __CPROVER_loop_entry(a->dp[(a->used - 1 - b) * (a->used > b)]))
+            __CPROVER_loop_invariant((PS_VERIF_K >= a->used && PS_VERIF_K < a->alloc) ==> a->dp[PS_VERIF_K] == 0)
+            __CPROVER_decreases(x - b + 1))
         {
+            PS_VERIF_PTR_HINT(top, a->dp + x) PS_VERIF_PTR_HINT(bottom, a->dp + (x - b))
             *top-- = *bottom--;
         }
         /* zero the lower digits */
         top = a->dp;
         for (x = 0; x < b; x++)
+        PS_VERIF_LOOP(__CPROVER_assigns(x, top, __CPROVER_object_whole(a->dp))
+            __CPROVER_loop_invariant(x <= b && top == a->dp + x)
+            __CPROVER_loop_invariant((a->used > b) ==> a->dp[a->used - 1] == __CPROVER_loop_entry(a->dp[a->used - 1]))
+            __CPROVER_loop_invariant((PS_VERIF_K < x) ==> a->dp[PS_VERIF_K] == 0)
+            __CPROVER_loop_invariant((PS_VERIF_K >= a->used && PS_VERIF_K < a->alloc) ==> a->dp[PS_VERIF_K] == 0)
+            __CPROVER_decreases(b - x))
         {
+            PS_VERIF_PTR_HINT(top, a->dp + x)
             *top++ = 0;
         }
     }
@@ -874,7 +947,15 @@ int32_t pstm_mul_2(const pstm_int *a, pstm_int *b)
         /* carry */
         r = 0;
         for (x = 0; x < a->used; x++)
+        PS_VERIF_LOOP(__CPROVER_assigns(x, r, rr, tmpa, tmpb, __CPROVER_object_whole(b->dp))
+            __CPROVER_loop_invariant(0 <= x && x <= a->used && r <= 1)
+            __CPROVER_loop_invariant(tmpa == a->dp + x && tmpb == b->dp + x)
+            __CPROVER_loop_invariant((x < a->used) ==> a->dp[a->used - 1] != 0)
+            __CPROVER_loop_invariant((x == a->used && a->used > 0) ==> (r != 0 || b->dp[a->used - 1] != 0))
+            __CPROVER_loop_invariant((PS_VERIF_K >= x && PS_VERIF_K >= oldused && PS_VERIF_K < b->alloc) ==> b->dp[PS_VERIF_K] == 0)
+            __CPROVER_decreases(a->used - x))
         {
+            PS_VERIF_PTR_HINT(tmpa, a->dp + x) PS_VERIF_PTR_HINT(tmpb, b->dp + x)
 /*
             get what will be the *next* carry bit from the
             MSB of the current digit
@@ -899,7 +980,14 @@ int32_t pstm_mul_2(const pstm_int *a, pstm_int *b)
         /* now zero any excess digits on the destination that we didn't write to */
         tmpb = b->dp + b->used;
         for (x = b->used; x < oldused; x++)
+        PS_VERIF_LOOP(__CPROVER_assigns(x, tmpb, __CPROVER_object_whole(b->dp))
+            __CPROVER_loop_invariant(b->used <= x && (x <= oldused || x == b->used) && tmpb == b->dp + x)
+            __CPROVER_loop_invariant((b->used > 0) ==> b->dp[b->used - 1] != 0)
+            __CPROVER_loop_invariant((b->used <= PS_VERIF_K && PS_VERIF_K < x) ==> b->dp[PS_VERIF_K] == 0)
+            __CPROVER_loop_invariant((PS_VERIF_K >= x && PS_VERIF_K >= oldused && PS_VERIF_K < b->alloc) ==> b->dp[PS_VERIF_K] == 0)
+            __CPROVER_decreases(oldused - x))
         {
+            PS_VERIF_PTR_HINT(tmpb, b->dp + x)
             *tmpb++ = 0;
         }
     }
@@ -934,18 +1022,31 @@ int32_t pstm_sub_s(const pstm_int *a, const pstm_int *b, pstm_int *c)
     c->used  = a->used;
     t = 0;
     for (x = 0; x < oldbused; x++)
+    PS_VERIF_LOOP(__CPROVER_assigns(x, t, __CPROVER_object_whole(c->dp))
+        __CPROVER_loop_invariant(0 <= x && x <= oldbused && t <= 1)
+        __CPROVER_loop_invariant((PS_VERIF_K >= oldused && PS_VERIF_K >= a->used && PS_VERIF_K < c->alloc) ==> c->dp[PS_VERIF_K] == 0)
+        __CPROVER_decreases(oldbused - x))
     {
         t = ((pstm_word) a->dp[x]) - (((pstm_word) b->dp[x]) + t);
         c->dp[x] = (pstm_digit) t;
         t = (t >> DIGIT_BIT) & 1;
     }
     for (; x < a->used; x++)
+    PS_VERIF_LOOP(__CPROVER_assigns(x, t, __CPROVER_object_whole(c->dp))
+        __CPROVER_loop_invariant(oldbused <= x && x <= a->used)
+        __CPROVER_loop_invariant((PS_VERIF_K >= oldused && PS_VERIF_K >= a->used && PS_VERIF_K < c->alloc) ==> c->dp[PS_VERIF_K] == 0)
+        __CPROVER_decreases(a->used - x))
     {
         t = ((pstm_word) a->dp[x]) - t;
         c->dp[x] = (pstm_digit) t;
         t = (t >> DIGIT_BIT);
     }
     for (; x < oldused; x++)
+    PS_VERIF_LOOP(__CPROVER_assigns(x, __CPROVER_object_whole(c->dp))
+        __CPROVER_loop_invariant(c->used <= x && (x <= oldused || x == c->used))
+        __CPROVER_loop_invariant((c->used <= PS_VERIF_K && PS_VERIF_K < x) ==> c->dp[PS_VERIF_K] == 0)
+        __CPROVER_loop_invariant((PS_VERIF_K >= x && PS_VERIF_K >= oldused && PS_VERIF_K < c->alloc) ==> c->dp[PS_VERIF_K] == 0)
+        __CPROVER_decreases(oldused - x))
     {
         c->dp[x] = 0;
     }
@@ -987,6 +1088,14 @@ static int32_t s_pstm_add(const pstm_int *a, const pstm_int *b, pstm_int *c)
 
     t = 0;
     for (x = 0; x < y; x++)
+    PS_VERIF_LOOP(__CPROVER_assigns(x, t, adp, bdp, __CPROVER_object_whole(c->dp))
+        __CPROVER_loop_invariant(0 <= x && x <= y && t <= 1)
+        __CPROVER_loop_invariant((x < y && a->used == y) ==> a->dp[y - 1] == __CPROVER_loop_entry(a->dp[(a->used - 1) * (a->used > 0)]))
+        __CPROVER_loop_invariant((x < y && b->used == y) ==> b->dp[y - 1] == __CPROVER_loop_entry(b->dp[(b->used - 1) * (b->used > 0)]))
+        __CPROVER_loop_invariant((x == y && y > 0) ==> (t != 0 || c->dp[y - 1] != 0))
+        __CPROVER_loop_invariant((x == y && y > 0 && a->used == y && b->used == y) ==> t >= ((((pstm_word) __CPROVER_loop_entry(a->dp[(a->used - 1) * (a->used > 0)])) + ((pstm_word) __CPROVER_loop_entry(b->dp[(b->used - 1) * (b->used > 0)]))) >> DIGIT_BIT))
+        __CPROVER_loop_invariant((PS_VERIF_K >= oldused && PS_VERIF_K >= y && PS_VERIF_K < c->alloc) ==> c->dp[PS_VERIF_K] == 0)
+        __CPROVER_decreases(y - x))
     {
         if (a->used <= x)
         {
@@ -1023,6 +1132,12 @@ static int32_t s_pstm_add(const pstm_int *a, const pstm_int *b, pstm_int *c)
 
     c->used = x;
     for (; x < oldused; x++)
+    PS_VERIF_LOOP(__CPROVER_assigns(x, __CPROVER_object_whole(c->dp))
+        __CPROVER_loop_invariant(c->used <= x && (x <= oldused || x == c->used))
+        __CPROVER_loop_invariant((c->used > 0) ==> c->dp[c->used - 1] == __CPROVER_loop_entry(c->dp[(c->used - 1) * (c->used > 0)]))
+        __CPROVER_loop_invariant((c->used <= PS_VERIF_K && PS_VERIF_K < x) ==> c->dp[PS_VERIF_K] == 0)
+        __CPROVER_loop_invariant((PS_VERIF_K >= x && PS_VERIF_K >= oldused && PS_VERIF_K < c->alloc) ==> c->dp[PS_VERIF_K] == 0)
+        __CPROVER_decreases(oldused - x))
     {
         c->dp[x] = 0;
     }
@@ -1221,6 +1336,13 @@ static int32_t pstm_mul_2d(const pstm_int *a, int16_t b, pstm_int *c)
         carry = 0;
         shift = DIGIT_BIT - b;
         for (x = 0; x < c->used; x++)
+        PS_VERIF_LOOP(__CPROVER_assigns(x, carry, carrytmp, __CPROVER_object_whole(c->dp))
+            __CPROVER_loop_invariant(x <= c->used && (carry >> b) == 0)
+            __CPROVER_loop_invariant((x == c->used && c->used > 0 && __CPROVER_loop_entry(c->dp[(c->used - 1) * (c->used > 0)]) != 0) ==> (carry != 0 || c->dp[c->used - 1] != 0))
+            __CPROVER_loop_invariant((x < c->used) ==> c->dp[c->used - 1] == __CPROVER_loop_entry(c->dp[(c->used - 1) * (c->used > 0)]))
+            __CPROVER_loop_invariant((x == c->used && c->used > 0) ==> carry == (__CPROVER_loop_entry(c->dp[(c->used - 1) * (c->used > 0)]) >> shift))
+            __CPROVER_loop_invariant((PS_VERIF_K >= c->used && PS_VERIF_K < c->alloc) ==> c->dp[PS_VERIF_K] == 0)
+            __CPROVER_decreases(c->used - x))
         {
             carrytmp = c->dp[x] >> shift;
             c->dp[x] = (c->dp[x] << b) + carry;
@@ -1272,6 +1394,11 @@ static int32_t pstm_mod_2d(const pstm_int *a, int16_t b, pstm_int *c)
 
     /* zero digits above the last digit of the modulus */
     for (x = (b / DIGIT_BIT) + ((b % DIGIT_BIT) == 0 ? 0 : 1); x < c->used; x++)
+    PS_VERIF_LOOP(__CPROVER_assigns(x, __CPROVER_object_whole(c->dp))
+        __CPROVER_loop_invariant(__CPROVER_loop_entry(x) <= x && x <= c->used)
+        __CPROVER_loop_invariant((__CPROVER_loop_entry(x) <= PS_VERIF_K && PS_VERIF_K < x) ==> c->dp[PS_VERIF_K] == 0)
+        __CPROVER_loop_invariant((PS_VERIF_K >= c->used && PS_VERIF_K < c->alloc) ==> c->dp[PS_VERIF_K] == 0)
+        __CPROVER_decreases(c->used - x))
     {
         c->dp[x] = 0;
     }
@@ -1383,7 +1510,12 @@ int32_t pstm_div_2d(psPool_t *pool, const pstm_int *a, int16_t b, pstm_int *c,
         /* carry */
         r = 0;
         for (x = c->used - 1; x >= 0; x--)
+        PS_VERIF_LOOP(__CPROVER_assigns(x, r, rr, tmpc, __CPROVER_object_whole(c->dp))
+            __CPROVER_loop_invariant(-1 <= x && x <= c->used - 1 && tmpc == c->dp + x)
+            __CPROVER_loop_invariant((PS_VERIF_K >= c->used && PS_VERIF_K < c->alloc) ==> c->dp[PS_VERIF_K] == 0)
+            __CPROVER_decreases(x + 1))
         {
+            PS_VERIF_PTR_HINT(tmpc, c->dp + x)
             /* get the lower  bits of this word in a temp */
             rr = *tmpc & mask;
 
@@ -1440,7 +1572,12 @@ int32_t pstm_div_2(const pstm_int *a, pstm_int *b)
         /* carry */
         r = 0;
         for (x = b->used - 1; x >= 0; x--)
+        PS_VERIF_LOOP(__CPROVER_assigns(x, r, rr, tmpa, tmpb, __CPROVER_object_whole(b->dp))
+            __CPROVER_loop_invariant(-1 <= x && x <= b->used - 1 && tmpa == a->dp + x && tmpb == b->dp + x)
+            __CPROVER_loop_invariant((PS_VERIF_K >= b->used && PS_VERIF_K >= oldused && PS_VERIF_K < b->alloc) ==> b->dp[PS_VERIF_K] == 0)
+            __CPROVER_decreases(x + 1))
         {
+            PS_VERIF_PTR_HINT(tmpa, a->dp + x) PS_VERIF_PTR_HINT(tmpb, b->dp + x)
             /* get the carry for the next iteration */
             rr = *tmpa & 1;
 
@@ -1454,7 +1591,13 @@ int32_t pstm_div_2(const pstm_int *a, pstm_int *b)
         /* zero excess digits */
         tmpb = b->dp + b->used;
         for (x = b->used; x < oldused; x++)
+        PS_VERIF_LOOP(__CPROVER_assigns(x, tmpb, __CPROVER_object_whole(b->dp))
+            __CPROVER_loop_invariant(b->used <= x && (x <= oldused || x == b->used) && tmpb == b->dp + x)
+            __CPROVER_loop_invariant((b->used <= PS_VERIF_K && PS_VERIF_K < x) ==> b->dp[PS_VERIF_K] == 0)
+            __CPROVER_loop_invariant((PS_VERIF_K >= x && PS_VERIF_K >= oldused && PS_VERIF_K < b->alloc) ==> b->dp[PS_VERIF_K] == 0)
+            __CPROVER_decreases(oldused - x))
         {
+            PS_VERIF_PTR_HINT(tmpb, b->dp + x)
             *tmpb++ = 0;
         }
     }
